@@ -113,10 +113,24 @@ func (h *harness) st(name string) *stats {
 }
 
 // budget returns (sweep cap, random inputs) for an entry of the given cost class.
+// mediumCost lists the entry points whose calls take tens of milliseconds under the race detector (JSON-LD-free but several
+// parse/marshal round trips per call): their thorough tier gets fewer random inputs so that the tier stays within its budget.
+var mediumCost = map[string]bool{"pe.Match.hostileVC": true, "pe.Match.hostileJWTVC": true, "didjwk.Resolve": true, "pe.Envelope.Parse-Validate": true, "pe.Envelope.JWT-Validate": true,
+	"didnuts.document": true, "didweb.document": true, "pe.Definition.Unmarshal-Match": true, "pe.Definition.Parse-Match": true}
+
+// budget returns (sweep cap, random inputs) for an entry of the given cost class.
+func (h *harness) budgetFor(name string, slow bool) (int, int) {
+	sweep, random := h.budget(slow)
+	if h.r.Thorough() && !slow && mediumCost[name] {
+		random = 7000
+	}
+	return sweep, random
+}
+
 func (h *harness) budget(slow bool) (int, int) {
 	if h.r.Thorough() {
 		if slow {
-			return 1200, 1200
+			return 1000, 800
 		}
 		return 1 << 30, 20000
 	}
@@ -435,7 +449,7 @@ func seedsOf(pairs ...string) []jsonSeed {
 // wrap turns a mutant into the entry's input (e.g. signs it into a JWS); it may return false to drop it.
 func genJSON(seeds []jsonSeed, slow bool, wrap func(s jsonSeed, m jmut.Mutant) (input, bool)) func(h *harness, e *entry, emit func(input)) {
 	return func(h *harness, e *entry, emit func(input)) {
-		sweepCap, nRandom := h.budget(slow)
+		sweepCap, nRandom := h.budgetFor(e.name, slow)
 		rnd := h.r.Rand("gen/" + e.name)
 		for _, s := range seeds {
 			in, ok := wrap(s, jmut.Mutant{Tree: s.tree, Data: s.tree.Bytes()})
@@ -493,7 +507,7 @@ func TestCheck(t *testing.T) {
 		"+ evenly spread truncations + seeded random 1-3 fold mutation (adds deep nesting, string/number variant tables, subtree swaps, byte damage); JWS/JWT inputs are re-signed after mutation, " +
 		"protobuf envelopes are mutated per field. Each case = one call of the real entry point under recover + 20s watchdog (child process for background handlers, full node for HTTP). " +
 		"Non-trivial = a mutated (not pristine) input whose call was observed to completion/panic/expiry; distinct by (entry, operator@pointer set).")
-	r.Require(r.Pick(4000, 60000), r.Pick(2500, 30000))
+	r.Require(r.Pick(15000, 250000), r.Pick(12000, 150000))
 	r.Assume("inputs are those reachable by the listed operators from the harness' valid instances; a silent run says nothing about other inputs")
 	r.Assume("a watchdog expiry (20s) is a hang only when the same input expires 3 more times with nothing else running and then also does not return within 150s alone; otherwise inconclusive (slow input)")
 	r.Assume("unrecoverable runtime errors (stack exhaustion, out of memory) in in-process entry points would abort the check as BROKEN with the input left in replay/C19/current/")
